@@ -72,15 +72,51 @@ fn supervise(prop: &str, tier: Tier) -> ExitCode {
             }
         }
     }
+    let skip_file = lsv_core::runner::verif_dir().join("work").join(prop).join("skip.txt");
+    let _ = std::fs::remove_file(&skip_file);
+    let mut crashes_skipped = 0u32;
+    loop {
+        let code = supervise_once(prop, tier, &exe, &skip_file, crashes_skipped);
+        match code {
+            3 if crashes_skipped < 6 => {
+                crashes_skipped += 1;
+                eprintln!("note: property={prop}: the engine crashed on a recorded history (crashes are reported by the checks of C01/C03/C05/C06/C07/C18/C20); that history is excluded and the search continues ({crashes_skipped} excluded so far)");
+            }
+            3 => {
+                eprintln!("INCONCLUSIVE property={prop}: the engine keeps crashing on recorded histories ({crashes_skipped} excluded); crashes are reported by the checks of C01/C03/C05/C06/C07/C18/C20, not by this one");
+                return ExitCode::from(2);
+            }
+            0 if crashes_skipped > 0 => {
+                eprintln!("INCONCLUSIVE property={prop}: no violation of this property among the cases that could be run, but {crashes_skipped} history(ies) crashed the engine and were excluded; crashes are reported by the checks of C01/C03/C05/C06/C07/C18/C20, not by this one");
+                return ExitCode::from(2);
+            }
+            c => return ExitCode::from(c),
+        }
+    }
+}
+
+fn supervise_once(prop: &str, tier: Tier, exe: &std::path::Path, skip_file: &std::path::Path, crashes_skipped: u32) -> u8 {
     let timeout_s: u64 = std::env::var("LSV_TIMEOUT_S").ok().and_then(|s| s.parse().ok()).unwrap_or(match tier {
         Tier::Quick => 1500,
         Tier::Thorough => 4 * 3600,
     });
-    let mut child = match Command::new(&exe).args(["run", prop, "--tier", tier.name()]).spawn() {
+    if let Ok(rd) = std::fs::read_dir(lsv_core::runner::verif_dir().join("work").join(prop)) {
+        for e in rd.flatten() {
+            if e.file_name().to_string_lossy().starts_with("current-") {
+                let _ = std::fs::remove_file(e.path());
+            }
+        }
+    }
+    let mut cmd = Command::new(exe);
+    cmd.args(["run", prop, "--tier", tier.name()]);
+    if crashes_skipped > 0 {
+        cmd.env("LSV_SKIP_FILE", skip_file);
+    }
+    let mut child = match cmd.spawn() {
         Ok(c) => c,
         Err(e) => {
             eprintln!("cannot spawn engine: {e}");
-            return ExitCode::from(2);
+            return 2;
         }
     };
     let t0 = std::time::Instant::now();
@@ -92,22 +128,21 @@ fn supervise(prop: &str, tier: Tier) -> ExitCode {
                     let _ = child.kill();
                     let _ = child.wait();
                     eprintln!("INCONCLUSIVE property={prop}: engine exceeded {timeout_s}s watchdog (not a violation)");
-                    return ExitCode::from(2);
+                    return 2;
                 }
                 std::thread::sleep(std::time::Duration::from_millis(50));
             }
             Err(e) => {
                 eprintln!("wait failed: {e}");
-                return ExitCode::from(2);
+                return 2;
             }
         }
     };
     match status.code() {
-        Some(c) => ExitCode::from(c as u8),
+        Some(c) => c as u8,
         None => {
             // died on a signal: triage the recorded current cases
-            let code = lsv_core::checks::replay::triage_crash(prop, tier, seed(), &exe);
-            ExitCode::from(code as u8)
+            lsv_core::checks::replay::triage_crash(prop, tier, seed(), exe) as u8
         }
     }
 }
